@@ -45,7 +45,7 @@ REAL_VS_STUB = {"real": ["torchsde.BrownianInterval/BrownianTree/BrownianPath ar
                          "numpy SeedSequence", "trampoline"],
                 "stub": ["torch.randn replaced by label vectors (mode law) / forced Levy draws (mode levy)",
                          "value cache wrapped by FaultyCache (forwarding)", "np.random.randint (entropy seam)"]}
-PROBES = ("law_runs", "levy_runs", "deep_sweeps", "levy_merged_mean", "point_evaluations", "gram_pairs", "overlapping_pairs", "H_checked", "bridge_W", "bridge_H", "whole_is_supplied",
+PROBES = ("law_runs", "levy_runs", "f32_law_runs", "levy_batch_confinement", "deep_sweeps", "levy_merged_mean", "point_evaluations", "gram_pairs", "overlapping_pairs", "H_checked", "bridge_W", "bridge_H", "whole_is_supplied",
           "cross_element_blocks", "levy_nodes_probed", "levy_foster", "levy_davie", "levy_root_probed", "levy_seeds_checked",
           "dyadic", "tol_grid", "tiny_cache", "labels_exhausted")
 # (not listed in PROBES because it is expected to stay at zero in most batches: inconclusive_32bit_seed_collision)
@@ -65,7 +65,7 @@ def gen_case(seed, tier, idx):
     mode = "levy" if rc.random() < 0.35 else "law"
     if mode == "levy":
         cfg = bm.gen_config(rc, fronts=(("interval", 1),), levy=rc.choice(["davie", "foster"]), allow_f32=False)
-        cfg["size"] = list(rc.choice([(1, 2), (2, 2), (1, 3), (2, 3)]))
+        cfg["size"] = list(rc.choice([(1, 2), (2, 2), (1, 3), (2, 3), (2, 1, 2), (2, 2, 2), (3, 1, 2)]))
         cfg["supply_W"] = cfg["supply_H"] = False
     else:
         cfg = bm.gen_config(rc, fronts=(("interval", 7), ("tree", 1.5), ("path", 1)), allow_f32=False)
@@ -81,11 +81,12 @@ def gen_case(seed, tier, idx):
         else:
             cfg["supply_W"] = cfg["supply_H"] = False
         cfg["L"] = 2048 if int(np.prod(cfg["size"] or [1])) >= 4 else 1024
+        cfg["dtype"] = "float32" if rc.random() < 0.12 else "float64"
     from .c05 import domain
     if mode == "law" and rc.random() < 0.12:
         # deep trees: several hundred consecutive steps (scalar sample, large label space). Seed hygiene between
         # nodes that are far apart in a deep tree only shows in histories like this.
-        cfg.update(front="interval", size=[], L=8192, halfway=False, tol=fx(0.0), gd=None, supply_W=False, supply_H=False,
+        cfg.update(front="interval", size=[], L=8192, halfway=False, dtype="float64", tol=fx(0.0), gd=None, supply_W=False, supply_H=False,
                    cache_size=rc.choice([45, 45, 100, None, 10]), warmup=None,
                    levy=rc.choice(["none", "space-time"]))
         t0, t1 = xf(cfg["t0"]), xf(cfg["t1"])
@@ -228,12 +229,14 @@ def _run_law(case, log, probes):
     reserved = 0
     W_sup = H_sup = None
     idx = torch.arange(numel)
+    dt_ = bm.DTYPES[cfg.get("dtype", "float64")]
+    f32 = dt_ == torch.float32
     if cfg.get("supply_W"):
-        W_sup = torch.zeros(size, dtype=torch.float64)
+        W_sup = torch.zeros(size, dtype=dt_)
         W_sup.view(L, numel)[reserved + idx, idx] = math.sqrt(span)
         reserved += numel
     if cfg.get("supply_H"):
-        H_sup = torch.zeros(size, dtype=torch.float64)
+        H_sup = torch.zeros(size, dtype=dt_)
         H_sup.view(L, numel)[reserved + idx, idx] = math.sqrt(span / 12)
         reserved += numel
     lab = Labeller(L, shape, reserved)
@@ -244,7 +247,7 @@ def _run_law(case, log, probes):
     with seams.RandnSeam("custom", lab.fn), seams.entropy_seam(st.get("entropy")):
         try:
             if cfg["front"] == "interval":
-                kw = dict(t0=t0, t1=t1, size=size, dtype=torch.float64, entropy=cfg["entropy"], tol=xf(cfg["tol"]),
+                kw = dict(t0=t0, t1=t1, size=size, dtype=dt_, entropy=cfg["entropy"], tol=xf(cfg["tol"]),
                           pool_size=cfg["pool_size"], cache_size=cfg["cache_size"], halfway_tree=cfg["halfway"],
                           levy_area_approximation=cfg["levy"])
                 if cfg["dt"] is not None:
@@ -256,7 +259,7 @@ def _run_law(case, log, probes):
                 front = torchsde.BrownianInterval(**kw)
                 dom = (t0, t1)
             elif cfg["front"] == "tree":
-                w0 = torch.full(size, 3.0, dtype=torch.float64)  # non-zero start value: only point evaluations add it
+                w0 = torch.full(size, 3.0, dtype=dt_)  # non-zero start value: only point evaluations add it
                 if W_sup is not None:
                     w1 = W_sup + w0
                     W_sup = w1 - w0  # the increment BrownianTree derives from (w0, w1), bit-for-bit
@@ -264,7 +267,7 @@ def _run_law(case, log, probes):
                                               tol=xf(cfg["tol"]), pool_size=cfg["pool_size"])
                 dom = (t0, t1)
             else:
-                w0 = torch.full(size, 3.0, dtype=torch.float64)
+                w0 = torch.full(size, 3.0, dtype=dt_)
                 front = torchsde.BrownianPath(t0=t0, w0=w0)
                 dom = (t0, t0 + 1.0)
             cache, interval = seams.install_faulty_cache(front, plan)
@@ -282,7 +285,7 @@ def _run_law(case, log, probes):
                         out = out - w0_
                     if dom[0] < t:
                         probes["point_evaluations"] += 1
-                        answers.append((0, dom[0], t, out.reshape(L, numel), i))
+                        answers.append((0, dom[0], t, out.reshape(L, numel).double(), i))
                     continue
                 ta, tb = xf(op["ta"]), xf(op["tb"])
                 if op.get("og"):
@@ -295,10 +298,10 @@ def _run_law(case, log, probes):
                 n_q += 1
                 if tuple(res["W"].shape) != size:
                     raise Violation("shape", {"msg": f"W {tuple(res['W'].shape)}"}, i)
-                W = res["W"].reshape(L, numel)
+                W = res["W"].reshape(L, numel).double()
                 answers.append((0, ta, tb, W, i))
                 if res["U"] is not None:
-                    H = res["U"].reshape(L, numel) / (tb - ta) - 0.5 * W
+                    H = res["U"].reshape(L, numel).double() / (tb - ta) - 0.5 * W
                     answers.append((1, ta, tb, H, i))
                 if W_sup is not None and (ta, tb) == dom:
                     probes["whole_is_supplied"] += 1
@@ -309,16 +312,16 @@ def _run_law(case, log, probes):
                 res = ex.raw(dom[0], dom[1], have_U, False, None, "whole")
                 if W_sup is not None and not torch.equal(res["W"], W_sup):
                     raise Violation("bridge_whole_W", {"err": bm.maxabs(res["W"] - W_sup)}, "whole")
-                Ww = res["W"].reshape(L, numel)
+                Ww = res["W"].reshape(L, numel).double()
                 if H_sup is not None:
                     if res["U"] is None:
                         raise Violation("bridge_whole_H", {"msg": "no U returned although H was supplied"}, "whole")
                     H_ret = res["U"] / (dom[1] - dom[0]) - 0.5 * res["W"]
-                    if bm.maxabs(H_ret - H_sup) > 1e-12 * max(bm.maxabs(H_sup), 1e-300):
+                    if bm.maxabs(H_ret - H_sup) > (1e-5 if f32 else 1e-12) * max(bm.maxabs(H_sup), 1e-300):
                         raise Violation("bridge_whole_H", {"err": bm.maxabs(H_ret - H_sup)}, "whole")
                 answers.append((0, dom[0], dom[1], Ww, "whole"))
                 if res["U"] is not None:
-                    answers.append((1, dom[0], dom[1], res["U"].reshape(L, numel) / (dom[1] - dom[0]) - 0.5 * Ww, "whole"))
+                    answers.append((1, dom[0], dom[1], res["U"].reshape(L, numel).double() / (dom[1] - dom[0]) - 0.5 * Ww, "whole"))
                 probes["bridge_W"] += int(W_sup is not None)
                 probes["bridge_H"] += int(H_sup is not None)
         except LabelsExhausted:
@@ -337,11 +340,12 @@ def _run_law(case, log, probes):
         # collisions or as none at all, and is judged). The run is inconclusive: counted, not judged.
         probes["inconclusive_32bit_seed_collision"] = 1
         return built if "built" in locals() else None, plan, n_q
-    gram_check(answers, numel, probes, foreign=lab.foreign)
+    probes["f32_law_runs"] = int(f32)
+    gram_check(answers, numel, probes, foreign=lab.foreign, rtol=2e-4 if f32 else 1e-9)
     return built if "built" in locals() else None, plan, n_q
 
 
-def gram_check(answers, numel, probes, foreign=0):
+def gram_check(answers, numel, probes, foreign=0, rtol=1e-9):
     if not answers:
         return
     kind = [a[0] for a in answers]
@@ -358,13 +362,13 @@ def gram_check(answers, numel, probes, foreign=0):
     for e in range(numel):
         Ve = V[:, :, e]
         G = (Ve @ Ve.T).numpy()
-        bad = np.abs(G - C) > 1e-9 * scale + 1e-300
+        bad = np.abs(G - C) > rtol * scale + 1e-300
         if bad.any():
             i, j = [int(x) for x in np.argwhere(bad)[0]]
             exact = kernel_exact(kind[i], s[i], t[i], kind[j], s[j], t[j])
             sc = math.sqrt(float(kernel_exact(kind[i], s[i], t[i], kind[i], s[i], t[i])) *
                            float(kernel_exact(kind[j], s[j], t[j], kind[j], s[j], t[j])))
-            if abs(float(G[i, j]) - float(exact)) > 1e-9 * sc:
+            if abs(float(G[i, j]) - float(exact)) > rtol * sc:
                 names = "WH"
                 if i == j:
                     vclass = f"law_var_{names[kind[i]]}"
@@ -379,7 +383,7 @@ def gram_check(answers, numel, probes, foreign=0):
         for e2 in range(e + 1, numel):
             X = (Ve @ V[:, :, e2].T).numpy()
             probes["cross_element_blocks"] += 1
-            if np.abs(X).max() > 1e-12 * max(scale.max(), 1e-300):
+            if np.abs(X).max() > max(1e-12, rtol * 1e-3) * max(scale.max(), 1e-300):
                 i, j = [int(x) for x in np.argwhere(np.abs(X) == np.abs(X).max())[0]]
                 raise Violation("law_cross_element", {"x": [kind[i], fx(s[i]), fx(t[i])], "y": [kind[j], fx(s[j]), fx(t[j])],
                                                       "elements": [e, e2], "got": float(X[i, j])}, answers[j][4])
@@ -396,8 +400,13 @@ class LevyForcer:
         self.force = None  # None: real noise; else tensor
         self.levy_seeds = []
         self.wh_seeds = set()
+        self.shared_levy_draws = []
 
     def fn(self, size, seed, kw):
+        m = self.size[-1]
+        if size != self.levy_size and len(size) >= 2 and size[-2:] == (m, m) and size != self.size:
+            # a Levy-area draw that does not have one (m, m) block per batch element: the noise is shared
+            self.shared_levy_draws.append(size)
         if size == self.levy_size:
             self.levy_seeds.append(seed)
             if self.force is not None:
@@ -428,6 +437,9 @@ def _run_levy(case, log, probes):
         except bm.CaseTooExpensive:
             probes["truncated_designed_bound"] = 1
             return built, n_q
+        if forcer.shared_levy_draws and int(np.prod(size[:-1])) > 1:
+            raise Violation("levy_noise_shared_across_elements", {"draw_size": list(forcer.shared_levy_draws[0]),
+                                                                  "expected": list(forcer.levy_size)}, "levy")
         forcer.force = torch.zeros(forcer.levy_size, dtype=torch.float64)
         from .c03 import levy_fold_check
         fold_probes = {"levy_fold_multi": 0, "levy_fold_3plus": 0}
@@ -476,6 +488,16 @@ def _run_levy(case, log, probes):
                     if not (torch.equal(r["W"], W) and torch.equal(r["U"], U)):
                         raise Violation("levy_probe_changed_WH", {"a": fx(a), "b": fx(b)}, "levy")
                     D[p, q] = r["A"] - A0
+            if int(np.prod(size[:-1])) > 1:
+                # noise of batch element 0 only: the response must be confined to batch element 0
+                E = torch.zeros(forcer.levy_size, dtype=torch.float64)
+                E.reshape(-1, m, m)[0, 0, m - 1] = 1.0
+                forcer.force = E
+                r = ex.raw(a, b, True, True, None, "levyB")
+                Db = (r["A"] - A0).reshape(-1, m, m)
+                probes["levy_batch_confinement"] += 1
+                if bm.maxabs(Db[1:]) > 1e-9 * h:
+                    raise Violation("levy_noise_leaks_across_batch", {"a": fx(a), "b": fx(b), "got": bm.maxabs(Db[1:])}, "levy")
             forcer.force = None
             Df = D.reshape(m * m, *A0.shape)
             cov = torch.einsum("k...ij,k...uv->...ijuv", Df, Df)  # covariance between entries (i,j) and (u,v)
